@@ -1,7 +1,7 @@
 (* Properties/C19.v : Peers settle on the highest common protocol version and frame data accordingly.
    Only statements, closed by lemmas of Proofs/Versions.v, each followed by Print Assumptions.
    Version values are N here; the code's uint8 range plays no role in any statement. *)
-From Shisui Require Import Base.Bytes Model.Framing Proofs.Framing Proofs.FramingExtra Model.Versions Proofs.Versions.
+From Shisui Require Import Base.Bytes Model.Framing Proofs.Framing Proofs.FramingExtra Model.Versions Proofs.Versions Proofs.VersionsExtra.
 From Shisui Require Import Gen.K_wire.
 
 (* findBiggestSameNumber succeeds with m  iff  m is the maximum of the intersection of the two advertised sets *)
@@ -143,6 +143,23 @@ Theorem C19_history_republished_record : forall own id s1 s2 old new,
   [negotiate own old; negotiate own new].
 Proof. exact history_republished_record. Qed.
 Print Assumptions C19_history_republished_record.
+
+(* the answer depends only on the two advertised SETS: order and repetition of entries in either list play no role
+   (value and error class) - a peer listing [0;0;1] is treated as one listing [0;1] or [1;0] *)
+Theorem C19_set_extensional : forall a a' b b',
+  same_set a a' -> same_set b b' -> find_biggest_same a b = find_biggest_same a' b'.
+Proof. exact fbs_set_extensional. Qed.
+Print Assumptions C19_set_extensional.
+
+Theorem C19_peer_duplicate_irrelevant : forall a v b1 b2,
+  find_biggest_same a (b1 ++ v :: b2) = find_biggest_same a (v :: b1 ++ v :: b2).
+Proof. exact fbs_peer_duplicate. Qed.
+Print Assumptions C19_peer_duplicate_irrelevant.
+
+Theorem C19_negotiate_set_extensional : forall A A' B B',
+  same_set A A' -> same_set B B' -> negotiate A B = negotiate A' B'.
+Proof. exact negotiate_set_extensional. Qed.
+Print Assumptions C19_negotiate_set_extensional.
 
 (* why both sides must derive the SAME version: a single-item uTP stream framed under one version and unframed under
    the other never yields the sent bytes - it is either rejected or altered (1..5 bytes more, or at least one fewer) *)
